@@ -285,13 +285,17 @@ class Stats:
                 "forms_seen": dict(sorted(self.forms.items()))}
 
 
-def _validate_all(ctx, binp, cases, tag, stats, chunk=250):
-    d = ctx.subdir("c13" + tag)
-    chunks = [cases[i:i + chunk] for i in range(0, len(cases), chunk)]
+def _validate_groups(ctx, binp, groups, stats):
+    """groups: [(tag, cases, chunk size)]; all chunks are recorded and validated by a pool of TLC processes."""
+    d = ctx.subdir("c13run")
+    jobs = []
+    for tag, cases, chunk in groups:
+        for i in range(0, len(cases), chunk):
+            jobs.append(("%s%d" % (tag, i // chunk), cases[i:i + chunk]))
     bad = []
-    par = max(1, min(6, ctx.workers // 2))
+    par = max(1, min(8, ctx.workers // 2))
     with ThreadPoolExecutor(max_workers=par) as ex:
-        futs = [ex.submit(_validate_chunk, ctx, binp, ch, d, "%s%d" % (tag, i), stats) for i, ch in enumerate(chunks)]
+        futs = [ex.submit(_validate_chunk, ctx, binp, ch, d, name, stats) for name, ch in jobs]
         for f in futs:
             bad += f.result()
     return bad
@@ -434,9 +438,72 @@ def run(ctx):
         "fonts marked loose (FontMatrix numbers 1e-320, 1e305, -7e-305): the matrix values are not compared, Write and "
         "Read must return (8 s limit per call, typical call about 1 ms) and succeed",
     ]
-    # 1. the design: exhaustive model checking of the offset loop
-    cfg = "CFFLayout.cfg" if ctx.quick() else "CFFLayoutFull.cfg"
-    res = ctx.tlc("CFFLayout", cfg=cfg, timeout=2400, label="CFFLayout exhaustive (%s)" % cfg)
+    binp = ctx.build("c13")
+    stats = Stats()
+    pool = Pool()
+    plain_subdir = ctx.subdir
+
+    def locked_subdir(name=None):      # TLC runs in parallel threads
+        with _lock:
+            return plain_subdir(name)
+    ctx.subdir = locked_subdir
+
+    quick = ctx.quick()
+    nsim = ctx.pick(200, 6000)
+    parts = ctx.pick(1, 4)
+    # Notice lengths offered to the random descriptors: below / across each boundary, moved by the seed
+    rpads = {40 + ctx.seed % 50, 200 + (ctx.seed * 7) % 300, 1050 + (ctx.seed * 11) % 90,
+             32690 + (ctx.seed * 13) % 80, 65450 + (ctx.seed * 17) % 90}
+    cfg = "CFFLayout.cfg" if quick else "CFFLayoutFull.cfg"
+    # Generation steps do not depend on each other (TLC, one worker each) nor on the model-checking run:
+    # all are started at once; verdicts do not depend on the order.
+    gens = ThreadPoolExecutor(max_workers=max(2, min(8, ctx.workers // 2)))
+    f_model = gens.submit(ctx.tlc, "CFFLayout", cfg=cfg, timeout=2400, label="CFFLayout exhaustive (%s)" % cfg)
+    # 2a. every value of every dimension (exhaustive enumeration of the descriptor set "ofat")
+    f_ofat = gens.submit(_gen, ctx, "ofat", label="CFFLayoutGen ofat (exhaustive)")
+    # 2a'. every shape of a nibble-coded real (sign x 1..9 digits x position of the decimal point, incl. trailing
+    # zeros and zeros after the point) in every float-typed DICT field (exhaustive enumeration of "shapes")
+    f_shapes = gens.submit(_gen, ctx, "shapes", label="CFFLayoutGen shapes (exhaustive)")
+    # 2a''. the upper end (and the value below it) of every count field: 255 / 256 private dictionaries with both
+    # FDSelect formats, 65534 / 65535 glyphs, CID 65535 (encoding counts 255 / 256 are part of "ofat")
+    f_maxima = gens.submit(_gen, ctx, "maxima", label="CFFLayoutGen maxima (exhaustive)")
+    # 2a-4. edges: every settable scalar over every operator's default value (+-1), empty INDEX elements, files with
+    # predefined charsets / encodings assembled by the harness, width - nominalWidthX at the ends of the number forms
+    f_edges = gens.submit(_gen, ctx, "edges", label="CFFLayoutGen edges (exhaustive)")
+    # 2c. random points of the full product
+    f_rand = [gens.submit(_gen, ctx, "rand", rpads, (), nsim // parts, "CFFLayoutGen rand (simulate, part %d)" % i,
+                          1200, ctx.seed * 16 + i) for i in range(parts)]
+    # 2d. large fonts
+    f_big = None if quick else gens.submit(_gen, ctx, "big", bigns=(3000, 60000, 65534, 65535),
+                                           label="CFFLayoutGen big", timeout=1800)
+    # 2b. paddings that move every stored offset across every boundary (needs a measured probe)
+    kinds = (0, 2) if quick else (0, 1, 2, 3)
+    jlo, jhi = (-7, 1) if quick else (-14, 3)
+    pads = _sweep_pads(ctx, binp, kinds, jlo, jhi, stats)
+    f_sweep = gens.submit(_gen, ctx, "sweep", pads=pads, label="CFFLayoutGen sweep (exhaustive)")
+
+    # numbering and de-duplication in a fixed order
+    ofat = pool.add(f_ofat.result())
+    shapes = pool.add(f_shapes.result())
+    maxima = pool.add(f_maxima.result())
+    edges = pool.add(f_edges.result())
+    sweep = pool.add(f_sweep.result())
+    rand = pool.add([c for f in f_rand for c in f.result()])
+    big = pool.add(f_big.result()) if f_big else []
+    nbig = len(big)
+    if len(rand) < nsim // 3:
+        raise vlib.Infra("random generation produced only %d fonts" % len(rand))
+    ctx.sample({"abstract_font": {k: v for k, v in ofat[0].items() if k != "enc"}})
+    ctx.sample({"descriptor": rand[0]["desc"]})
+
+    # 3. every font: write, walk, read back, judge (chunks validated by parallel TLC processes)
+    bad = _validate_groups(ctx, binp, [("maxima", maxima, 1), ("big", big, 2), ("ofat", ofat, 250),
+                                       ("shapes", shapes, 250), ("edges", edges, 250), ("sweep", sweep, 250),
+                                       ("rand", rand, 250)], stats)
+
+    # 1. the design: exhaustive model checking of the offset loop (ran meanwhile)
+    res = f_model.result()
+    gens.shutdown()
     if not res.ok:
         raise vlib.Infra("CFFLayout.tla violates %s on the model -- the spec is wrong, not the code:\n%s"
                          % (res.violated, res.error_text[:1500]))
@@ -445,64 +512,6 @@ def run(ctx):
         "layout_model": open(os.path.join(vlib.SPEC_DIR, cfg)).read().split("INIT")[0].strip().splitlines()[1:],
         "layout_model_passes_max": res.diameter - 1,
     }
-
-    binp = ctx.build("c13")
-    stats = Stats()
-    pool = Pool()
-    bad = []
-    plain_subdir = ctx.subdir
-
-    def locked_subdir(name=None):      # chunks are validated by parallel TLC processes
-        with _lock:
-            return plain_subdir(name)
-    ctx.subdir = locked_subdir
-
-    # 2a. every value of every dimension (exhaustive enumeration of the descriptor set "ofat")
-    ofat = pool.add(_gen(ctx, "ofat", label="CFFLayoutGen ofat (exhaustive)"))
-    ctx.sample({"abstract_font": {k: v for k, v in ofat[0].items() if k != "enc"}})
-    bad += _validate_all(ctx, binp, ofat, "ofat", stats)
-
-    # 2a'. every shape of a nibble-coded real (sign x 1..9 digits x position of the decimal point, incl. trailing
-    # zeros and zeros after the point) in every float-typed DICT field (exhaustive enumeration of "shapes")
-    shapes = pool.add(_gen(ctx, "shapes", label="CFFLayoutGen shapes (exhaustive)"))
-    bad += _validate_all(ctx, binp, shapes, "shapes", stats)
-
-    # 2a''. the upper end (and the value below it) of every count field: 255 / 256 private dictionaries with both
-    # FDSelect formats, 65534 / 65535 glyphs, CID 65535 (encoding counts 255 / 256 are part of "ofat")
-    maxima = pool.add(_gen(ctx, "maxima", label="CFFLayoutGen maxima (exhaustive)"))
-    bad += _validate_all(ctx, binp, maxima, "maxima", stats, chunk=1)
-
-    # 2a-4. edges: every settable scalar over every operator's default value (+-1), empty INDEX elements, files with
-    # predefined charsets / encodings assembled by the harness, width - nominalWidthX at the ends of the number forms
-    edges = pool.add(_gen(ctx, "edges", label="CFFLayoutGen edges (exhaustive)"))
-    bad += _validate_all(ctx, binp, edges, "edges", stats)
-
-    # 2b. paddings that move every stored offset across every boundary
-    kinds = (0, 2) if ctx.quick() else (0, 1, 2, 3)
-    jlo, jhi = (-7, 1) if ctx.quick() else (-14, 3)
-    pads = _sweep_pads(ctx, binp, kinds, jlo, jhi, stats)
-    sweep = pool.add(_gen(ctx, "sweep", pads=pads, label="CFFLayoutGen sweep (exhaustive)"))
-    bad += _validate_all(ctx, binp, sweep, "sweep", stats)
-
-    # 2c. random points of the full product
-    nsim = ctx.pick(200, 6000)
-    parts = ctx.pick(1, 4)
-    rpads = {p for p in pads if p % 97 == ctx.seed % 97}
-    with ThreadPoolExecutor(max_workers=parts) as ex:
-        futs = [ex.submit(_gen, ctx, "rand", rpads, (), nsim // parts, "CFFLayoutGen rand (simulate, part %d)" % i,
-                          1200, ctx.seed * 16 + i) for i in range(parts)]
-        rand = pool.add([c for f in futs for c in f.result()])
-    if len(rand) < nsim // 3:
-        raise vlib.Infra("random generation produced only %d fonts" % len(rand))
-    ctx.sample({"descriptor": rand[0]["desc"]})
-    bad += _validate_all(ctx, binp, rand, "rand", stats)
-
-    # 2d. large fonts
-    nbig = 0
-    if not ctx.quick():
-        big = pool.add(_gen(ctx, "big", bigns=(3000, 60000, 65534, 65535), label="CFFLayoutGen big", timeout=1800))
-        nbig = len(big)
-        bad += _validate_all(ctx, binp, big, "big", stats, chunk=2)
 
     ctx.cov["distinct_nontrivial"] = pool.n
     ctx.cov["rule"] = ("distinct abstract fonts generated by TLC (ofat %d + real-number shapes %d + count maxima %d + edges %d + sweep %d + rand %d + big %d), each written by "
